@@ -4,6 +4,8 @@
 //!   c07child text <script-file> [halt-ms]   run_script(text of the file)
 //!   c07child file <script-file> [halt-ms]   run_script_file(path)   (include cycles)
 //!   c07child list                           print `alias<TAB>full name` of every command
+//!   c07child cwdtext <script-file> <halt-ms> <dir>   chdir(dir), run_script(text of the file);
+//!                                           exit 0 = Ok, 6 = the run returned an error
 //!
 //! exit status: 0 = control returned (result context or error value), 3 = panic (caught),
 //! 4 = no return within 5 s (hang), anything else / a signal = the process aborted.
@@ -71,6 +73,13 @@ fn main() {
         let env = Env::new(Some(Box::new(Sink)), Some(Box::new(Sink)), Some(halt));
         if mode == "file" {
             duckscript::runner::run_script_file(&path, ctx, Some(env)).is_ok()
+        } else if mode == "cwdtext" {
+            let text = std::fs::read_to_string(&path).expect("script file");
+            std::env::set_current_dir(&args[4]).expect("chdir");
+            if duckscript::runner::run_script(&text, ctx, Some(env)).is_err() {
+                std::process::exit(6);
+            }
+            true
         } else {
             let text = std::fs::read_to_string(&path).expect("script file");
             duckscript::runner::run_script(&text, ctx, Some(env)).is_ok()
